@@ -491,6 +491,11 @@ func (r *c11Runner) Step(op string) string {
 			if !ok1 || !ok2 || c < 1 || c > 3 {
 				return "bad-op"
 			}
+			// caller contract: a backup cut is never below the channel's adopted retention boundary
+			if rs, err := c11Store(e, r.stores, int(c)).LoadRetentionState(); err == nil && hw < rs.LocalRetentionThroughSeq {
+				r.stream, r.cuts = nil, nil
+				return "guard:cut-below-retention"
+			}
 			cp := message.Checkpoint{HW: hw}
 			if cur, err := c11Store(e, r.stores, int(c)).LoadCheckpoint(); err == nil {
 				cp.Epoch, cp.LogStartOffset = cur.Epoch, cur.LogStartOffset
